@@ -101,7 +101,7 @@ fn option_set(rng: &mut Rng, ops: &[String], query_path: &str) -> Value {
         );
     }
     if rng.chance(1, 6) {
-        let all = ["DistanceUnit", "Direction", "Episode", "Status"];
+        let all = ["DistanceUnit", "Direction", "Episode", "Status", "Mood", "Tone", "Color"];
         let k = rng.range(1, 2);
         let v: Vec<&str> = (0..k).map(|_| *rng.pick(&all)).collect();
         o.insert("extern_enums".into(), json!(v));
